@@ -82,7 +82,155 @@ def _fn(cls, name, rel):
     f = next((n for n in cls.body if isinstance(n, (ast.FunctionDef, ast.AsyncFunctionDef)) and n.name == name), None)
     if f is None:
         raise TranslatorError(f"{rel}: {cls.name}.{name} not found")
-    return f
+    return _inline_aliases(_inline_helpers(f, cls))
+
+
+# ---- meaning-preserving pre-passes: private helpers inlined, hoisted locals substituted back -------------------------
+class _Subst(ast.NodeTransformer):
+    def __init__(self, mapping):
+        self.mapping = mapping
+
+    def visit_Name(self, n):
+        if isinstance(n.ctx, ast.Load) and n.id in self.mapping:
+            import copy
+            return copy.deepcopy(self.mapping[n.id])
+        return n
+
+
+def _helper_call(call, cls):
+    """(helper def, {param: argument}) when `call` is self._x(...) / Cls._x(...) / cls._x(...) of a private method of this
+    class with plain positional/keyword arguments; None otherwise"""
+    if not (isinstance(call, ast.Call) and isinstance(call.func, ast.Attribute) and call.func.attr.startswith("_")
+            and not call.func.attr.startswith("__") and isinstance(call.func.value, ast.Name)
+            and call.func.value.id in ("self", "cls", cls.name)):
+        return None
+    h = next((n for n in cls.body if isinstance(n, ast.FunctionDef) and n.name == call.func.attr), None)
+    if h is None or h.args.vararg or h.args.kwarg or h.args.kwonlyargs or h.args.defaults:
+        return None
+    static = any(isinstance(d, ast.Name) and d.id == "staticmethod" for d in h.decorator_list)
+    if [d for d in h.decorator_list if not (isinstance(d, ast.Name) and d.id == "staticmethod")]:
+        return None
+    params = [a.arg for a in h.args.args][0 if static else 1:]
+    if any(isinstance(a, ast.Starred) for a in call.args) or any(k.arg is None for k in call.keywords):
+        return None
+    bound = dict(zip(params, call.args))
+    for k in call.keywords:
+        if k.arg in bound or k.arg not in params:
+            return None
+        bound[k.arg] = k.value
+    if set(bound) != set(params):
+        return None
+    # arguments must be side-effect free expressions (they may be duplicated by the substitution)
+    for a in bound.values():
+        if any(isinstance(x, (ast.Call, ast.Await, ast.Yield, ast.NamedExpr)) for x in ast.walk(a)):
+            return None
+    # the helper must not assign to its parameters or use names that mean something else at the call site
+    for x in ast.walk(h):
+        if isinstance(x, ast.Name) and isinstance(x.ctx, ast.Store) and x.id in params:
+            return None
+    return h, bound
+
+
+def _helper_body(h):
+    return [x for i, x in enumerate(h.body)
+            if not (i == 0 and isinstance(x, ast.Expr) and isinstance(x.value, ast.Constant) and isinstance(x.value.value, str))]
+
+
+def _inline_helpers(fn, cls, depth=0):
+    """Two shapes, both only for private methods of the same class:
+       (a) a statement `self._h(args)` whose helper is straight-line (no return / yield / await): replaced by the helper's
+           body with the parameters substituted;
+       (b) `if not self._h(args): return` whose helper is a sequence of `if <cond>: [log]; return False` closed by
+           `return True`: replaced by the guards `if <cond>: [log]; return` in the same order."""
+    import copy
+    if depth > 3:
+        return fn
+    changed = [False]
+
+    class T(ast.NodeTransformer):
+        def _stmts(self, stmts):
+            out = []
+            for st in stmts:
+                st = self.visit(st)
+                rep = self._expand(st)
+                out.extend(rep if rep is not None else [st])
+            return out
+
+        def _expand(self, st):
+            if isinstance(st, ast.Expr):
+                hc = _helper_call(st.value, cls)
+                if hc:
+                    h, bound = hc
+                    body = _helper_body(h)
+                    if not any(isinstance(x, (ast.Return, ast.Yield, ast.YieldFrom, ast.Await, ast.Global, ast.Nonlocal))
+                               for b in body for x in ast.walk(b)):
+                        changed[0] = True
+                        return [_Subst(bound).visit(copy.deepcopy(b)) for b in body]
+            if isinstance(st, ast.If) and not st.orelse and _is_drop(st.body) and isinstance(st.test, ast.UnaryOp) \
+                    and isinstance(st.test.op, ast.Not):
+                hc = _helper_call(st.test.operand, cls)
+                if hc:
+                    h, bound = hc
+                    body = _helper_body(h)
+                    guards, ok = [], bool(body)
+                    for b in body[:-1]:
+                        rest = [x for x in b.body if not _is_log(x)] if isinstance(b, ast.If) and not b.orelse else None
+                        if rest is None or len(rest) != 1 or not (isinstance(rest[0], ast.Return)
+                                                                  and isinstance(rest[0].value, ast.Constant)
+                                                                  and rest[0].value.value is False):
+                            ok = False
+                            break
+                        g = copy.deepcopy(b)
+                        g.body = [x for x in g.body if _is_log(x)] + [ast.Return(value=None)]
+                        guards.append(_Subst(bound).visit(g))
+                    last = body[-1] if body else None
+                    if ok and isinstance(last, ast.Return) and isinstance(last.value, ast.Constant) and last.value.value is True:
+                        changed[0] = True
+                        return guards
+            return None
+
+        def generic_visit(self, node):
+            for field in ("body", "orelse", "finalbody"):
+                b = getattr(node, field, None)
+                if isinstance(b, list) and b and isinstance(b[0], ast.stmt):
+                    setattr(node, field, self._stmts(b))
+            for hnd in getattr(node, "handlers", []) or []:
+                hnd.body = self._stmts(hnd.body)
+            return node
+
+    out = T().visit(copy.deepcopy(fn))
+    ast.fix_missing_locations(out)
+    return _inline_helpers(out, cls, depth + 1) if changed[0] else out
+
+
+def _inline_aliases(fn):
+    """`x = <attribute/subscript chain>` with x assigned exactly once and none of the chain's names reassigned afterwards:
+    every later use of x is replaced by the chain and the assignment is dropped (a hoisted repeated look-up).  The chain may
+    not contain calls, so evaluating it again has no effect and yields the same object."""
+    import copy
+    params = {a.arg for a in fn.args.args + fn.args.kwonlyargs}
+    stores = {}
+    for x in ast.walk(fn):
+        if isinstance(x, ast.Name) and isinstance(x.ctx, ast.Store):
+            stores[x.id] = stores.get(x.id, 0) + 1
+    aliases = {}
+    for st in fn.body:          # top level only: the alias dominates all its uses
+        if isinstance(st, ast.Assign) and len(st.targets) == 1 and isinstance(st.targets[0], ast.Name):
+            name = st.targets[0].id
+            pure = isinstance(st.value, (ast.Subscript, ast.Attribute)) and all(
+                isinstance(x, (ast.Name, ast.Attribute, ast.Subscript, ast.Constant, ast.Load, ast.Index))
+                for x in ast.walk(st.value))
+            used_names = {x.id for x in ast.walk(st.value) if isinstance(x, ast.Name)}
+            if pure and stores.get(name) == 1 and name not in params \
+                    and all(stores.get(u, 0) <= (0 if u in params or u == "self" else 1) for u in used_names):
+                aliases[name] = st.value
+    if not aliases:
+        return fn
+    out = copy.deepcopy(fn)
+    out.body = [st for st in out.body if not (isinstance(st, ast.Assign) and len(st.targets) == 1
+                                             and isinstance(st.targets[0], ast.Name) and st.targets[0].id in aliases)]
+    out = _Subst(aliases).visit(out)
+    return ast.fix_missing_locations(out)
 
 
 # ---- normalisation: obviously equivalent rewrites are mapped to one form before the recognisers run ------------------
@@ -550,16 +698,57 @@ def post_process_values(self, values):
 """
 
 
+PP_GROUP = ["""
+    unpacked = defaultdict(list)
+    for value in values:
+        unserialized = self.unserialize_value(value)
+        if unserialized:
+            data, public_key, version = unserialized
+            unpacked[public_key].append((version, data))
+""", """
+    unpacked = {None: []}
+    for value in values:
+        unserialized = self.unserialize_value(value)
+        if unserialized:
+            data, public_key, version = unserialized
+            unpacked.setdefault(public_key, []).append((version, data))
+"""]
+PP_SIGNED = ["""
+    results = []
+    for public_key, data_list in unpacked.items():
+        if public_key is not None:
+            results.append((PICK(data_list, key=lambda t: t[0])[1], public_key))
+""", """
+    results = [(PICK(data_list, key=lambda t: t[0])[1], public_key) for public_key, data_list in unpacked.items()
+               if public_key is not None]
+"""]
+PP_UNSIGNED = ["""
+    return [*results, *((data[1], None) for data in unpacked[None])]
+""", """
+    results.extend((data[1], None) for data in unpacked[None])
+    return results
+""", """
+    unsigned = [(data, None) for _, data in unpacked[None]]
+    return results + unsigned
+""", """
+    unsigned = [(data[1], None) for data in unpacked[None]]
+    return results + unsigned
+""", """
+    return results + [(data, None) for _, data in unpacked[None]]
+"""]
+
+
 def _post_process(cls):
+    """group verified values by public key (insertion order), one PICK by version per key (first extremal element), then the
+    unsigned values in order: any combination of the equivalent forms of the three parts, up to renaming"""
     fn = _fn(cls, "post_process_values", COMMUNITY)
-    variants = [REF_POST_PROCESS,
-                REF_POST_PROCESS.replace("unpacked = defaultdict(list)", "unpacked = {None: []}")
-                                .replace("unpacked[public_key].append(", "unpacked.setdefault(public_key, []).append("),
-                REF_POST_PROCESS.replace("return [*results, *((data[1], None) for data in unpacked[None])]",
-                                         "results.extend((data[1], None) for data in unpacked[None])\n    return results")]
     for pick in ("max", "min"):
-        if any(_same_up_to_renaming(fn, v.replace("PICK", pick)) for v in variants):
-            return ".maxVersion" if pick == "max" else ".minVersion"
+        for g in PP_GROUP:
+            for sg in PP_SIGNED:
+                for u in PP_UNSIGNED:
+                    ref = "def post_process_values(self, values):" + g + sg.replace("PICK", pick) + u
+                    if _same_up_to_renaming(fn, ref):
+                        return ".maxVersion" if pick == "max" else ".minVersion"
     raise TranslatorError("post_process_values is not the recognised shape (group verified values by public key, one "
                           "max/min by version per key, then the unsigned values)")
 
@@ -737,9 +926,12 @@ def _storage():
                  and isinstance(x.value, ast.Subscript) and _u(x.value).startswith("self.items[")), "old_value")
     le, ri = le.replace(newv + ".", "new_value.").replace(oldv + ".", "old_value."), \
         ri.replace(newv + ".", "new_value.").replace(oldv + ".", "old_value.")
-    if (le, ri) == ("new_value.version", "old_value.version"):
+    def _is_old(x):
+        return x.endswith(".version") and x != "new_value.version" and (x == "old_value.version" or "[index]" in x
+                                                                        or x.startswith("self.items["))
+    if le == "new_value.version" and _is_old(ri):
         put_cmp = op
-    elif (le, ri) == ("old_value.version", "new_value.version"):
+    elif ri == "new_value.version" and _is_old(le):
         put_cmp = {"gt": "lt", "ge": "le", "lt": "gt", "le": "ge", "eq": "eq", "ne": "ne"}[op]
     else:
         raise TranslatorError("Storage.put: version comparison is not between new_value and old_value")
